@@ -20,6 +20,8 @@ Record TblInv (h : heap) : Prop := {
   ti_wf : heap_wf h;
   ti_sym : symmetric h;
   ti_names : names_live h;
+  (* a Loopback record is only ever made by an object for itself *)
+  ti_loop : forall a x, 0 < lget h a (x, Loop) -> x = a;
 }.
 
 (** ** counters *)
@@ -103,7 +105,8 @@ Definition tblinvb (h : heap) : bool :=
   Nall (length h) (fun a =>
      match nth_error h a with
      | Some ba => forallb (fun e =>
-         match nth_error h (fst (fst e)) with Some bx => live bx | None => false end) (btable ba)
+         match nth_error h (fst (fst e)) with Some bx => live bx | None => false end &&
+         match snd (fst e) with Loop => Nat.eqb (fst (fst e)) a | _ => true end) (btable ba)
      | None => true end).
 
 Definition countinvb (s : state) (k : list frame) : bool :=
